@@ -27,6 +27,16 @@ class MemViolation(ExecError):
     pass
 
 
+class LoopCut(Exception):
+    """raised by a phi_hook when control returns to a cut loop header: the path ends here (regs = values after the phis)"""
+    def __init__(self, fn, block, prev, regs):
+        Exception.__init__(self, "loop cut at %s:%s" % (fn.name, block))
+        self.fn = fn
+        self.block = block
+        self.prev = prev
+        self.regs = dict(regs)
+
+
 class PathAbort(Exception):
     """current path is infeasible or cut by the harness"""
     pass
@@ -232,6 +242,8 @@ class Interp:
         self.trace_calls = None  # optional list to append (name, args) of every call
         self.fresh_n = 0
         self.loop_hook = None
+        self.phi_hook = None
+        self.keep_after_lifetime_end = False   # harnesses that inspect a local object after the function returned
         self.max_call_depth = 200
         self.external_handler = None
         self.noalias_fatal = True   # False: a caller passing the written object to a __restrict parameter is recorded in .events only
@@ -1144,6 +1156,8 @@ class Interp:
             return None
         if name.startswith("llvm.lifetime.end"):
             p = args[1]
+            if self.keep_after_lifetime_end:
+                return None
             if isinstance(p, Ptr) and p.obj is not None and p.obj.kind == "alloca" and is_conc(p.off) and p.off == 0:
                 p.obj.cells.clear()
             return None
@@ -1277,6 +1291,10 @@ class Interp:
                     k += 1
                 for r, v in newvals:
                     regs[r] = v
+                if self.phi_hook is not None and k:
+                    # loop-cut support: called after the phis of a block have been evaluated; may overwrite them (havoc) or
+                    # raise LoopCut to end the path at a back edge
+                    self.phi_hook(self, fn, block, prev, regs)
                 nxt = None
                 for ins in instrs[k:]:
                     self.steps += 1
